@@ -430,6 +430,13 @@ pub fn check(spec: &Spec, prm: &Params) -> CodeOut {
             } else if !o.fused {
                 add(out, "CODE-TILING", format!("[{}] next() after None does not return None again", names[bi]), input, is_prefix);
             }
+            if spec.utf8 && std::str::from_utf8(input).is_ok() {
+                let st = std::str::from_utf8(input).unwrap();
+                let bad = o.run.items.iter().map(|i| i.span()).chain([(o.run.end_start, o.run.end_pos)]).find(|(s, e)| !(st.is_char_boundary(*s.min(&input.len())) && st.is_char_boundary(*e.min(&input.len())) && *e <= input.len()));
+                if let Some((s, e)) = bad {
+                    add(out, "CODE-BOUNDARY", format!("[{}] span {s}..{e} does not lie on char boundaries of the str input", names[bi]), input, is_prefix);
+                }
+            }
             if let Some(c) = &o.variant_clash {
                 add(out, "CODE-TOKENS", format!("[{}] {c}", names[bi]), input, is_prefix);
             }
@@ -475,6 +482,7 @@ pub fn tag_property(tag: &str) -> &'static [&'static str] {
         "CODE-TILING" => &["C03", "C06"],
         "CODE-PARTIAL" => &["C07", "C06"],
         "CODE-BACKENDS" => &["C06"],
+        "CODE-BOUNDARY" => &["C04"],
         "CODE-READS" => &["C20"],
         "CODE-PANIC" => &["C03", "C05", "C06"],
         _ => &[],
@@ -492,12 +500,12 @@ pub fn params(tier: Tier, full: bool) -> Params {
 pub fn code(a: &Args) -> Report {
     let mut rep = Report::new(&a.prop, "vgraph code (emitted code interpreted on model traces)", &a.tier_name);
     let mut specs = vcore::enumerate::family(a.tier);
-    for (_, s, heavy) in vcore::curated::curated() {
-        if !heavy || a.tier == Tier::Thorough {
-            specs.push(s.clone());
-            if s.utf8 {
-                specs.push(s.bytes_mode());
-            }
+    // the heavy Unicode definitions are part of this step in BOTH tiers: they are the only ones with
+    // hundreds of look-up-table classes (more than 256 masks, dozens of `_TABLE_n`)
+    for (_, s, _heavy) in vcore::curated::curated() {
+        specs.push(s.clone());
+        if s.utf8 {
+            specs.push(s.bytes_mode());
         }
     }
     // all 256 next bytes for the first definition of every graph shape (and for every definition in
